@@ -69,16 +69,18 @@ def qualifier_declarations():
 
 
 class PropDef:
-    __slots__ = ('name', 'type', 'is_array', 'key', 'default', 'ref_class')
+    __slots__ = ('name', 'type', 'is_array', 'key', 'default', 'ref_class',
+                 'embedded')
 
     def __init__(self, name, type_, is_array=False, key=False, default=None,
-                 ref_class=None):
+                 ref_class=None, embedded=None):
         self.name = name
         self.type = type_
         self.is_array = is_array
         self.key = key
         self.default = default      # plain python value (MOF-printable)
         self.ref_class = ref_class
+        self.embedded = embedded    # class name of EmbeddedInstance("...")
 
     def typed_default(self):
         if self.default is None:
@@ -86,10 +88,14 @@ class PropDef:
         return cimvalue(self.default, self.type)
 
     def describe(self):
-        return '%s%s %s%s%s' % ('[Key] ' if self.key else '', self.type,
-                                self.name, '[]' if self.is_array else '',
-                                '' if self.default is None
-                                else ' = %r' % (self.default,))
+        t = self.type
+        if t == 'reference':
+            t = '%s REF' % self.ref_class
+        return '%s%s%s %s%s%s' % (
+            '[Key] ' if self.key else '',
+            '[EmbeddedInstance("%s")] ' % self.embedded if self.embedded
+            else '', t, self.name, '[]' if self.is_array else '',
+            '' if self.default is None else ' = %r' % (self.default,))
 
 
 class ClassDef:
@@ -150,6 +156,7 @@ class Schema:
         self.classes = {}        # lower name -> ClassDef, insertion = topo
         self.ns_classes = {}     # lower ns -> [lower class names] (topo)
         self.via = 'api'
+        self.interop = None      # namespace with the CIM_Namespace provider
 
     # ---- queries used by the models ------------------------------------
     def cls(self, name):
@@ -206,7 +213,8 @@ class Schema:
                 '; '.join(p.describe() for p in c.props))
                 for c in self.classes.values()],
             'installed': {ns: [self.classes[c].name for c in cl]
-                          for ns, cl in self.ns_classes.items()}}
+                          for ns, cl in self.ns_classes.items()},
+            'namespace_provider_in': self.interop}
 
     # ---- rendering -------------------------------------------------------
     def class_mof(self, c):
@@ -220,6 +228,8 @@ class Schema:
                                     else '')
         for p in c.props:
             q = '[Key] ' if p.key else ''
+            if p.embedded:
+                q = '[EmbeddedInstance("%s")] ' % p.embedded
             if p.type == 'reference':
                 t = '%s REF' % p.ref_class
             else:
@@ -233,6 +243,8 @@ class Schema:
         props = []
         for p in c.props:
             quals = [CIMQualifier('Key', True)] if p.key else []
+            if p.embedded:
+                quals.append(CIMQualifier('EmbeddedInstance', p.embedded))
             props.append(CIMProperty(
                 p.name, p.typed_default(), type=p.type, is_array=p.is_array,
                 reference_class=p.ref_class, qualifiers=quals))
@@ -261,6 +273,8 @@ class Schema:
                 for cn in self.ns_classes[nskey]:
                     conn.CreateClass(self.class_obj(self.classes[cn]),
                                      namespace=ns)
+        if self.interop is not None:
+            conn.install_namespace_provider(self.interop)
         return conn
 
 
@@ -269,7 +283,7 @@ NS_POOL = ['root/cimv2', 'root/A', 'Nsx', 'test/Ns1/sub', 'root/b', 'ROOT/C',
 
 
 def gen_schema(rng, with_assoc=False, max_ns=3, max_trees=3, min_ns=1,
-               ascii_only=False):
+               ascii_only=False, with_embedded=False, with_nsprovider=False):
     s = Schema()
     s.via = 'mof' if rng.random() < 0.35 else 'api'
     nonascii = 0.0 if s.via == 'mof' or ascii_only else 0.04
@@ -337,8 +351,12 @@ def gen_schema(rng, with_assoc=False, max_ns=3, max_trees=3, min_ns=1,
         if not installed:
             installed = [c.name.lower() for c in trees[0]]
         s.ns_classes[nskey] = installed
+    if with_embedded:
+        _add_embedded(rng, s, trees, fresh)
     if with_assoc:
         _add_associations(rng, s, fresh)
+    if with_nsprovider:
+        _add_namespace_provider(rng, s)
     return s
 
 
@@ -353,21 +371,65 @@ def _nonkey_props(rng, fresh, n):
     return out
 
 
+def _add_embedded(rng, s, trees, fresh):
+    """String properties declared [EmbeddedInstance("X")], X a class of the
+    same tree at a lower depth (so X is installed wherever the declaring
+    class is, and before it)."""
+    for tree in trees:
+        for c in tree:
+            lower = [x for x in tree if x.depth < c.depth]
+            if lower and rng.random() < 0.5:
+                c.props.append(PropDef(fresh(rng.choice(['E_', 'emb'])),
+                                       'string',
+                                       embedded=rng.choice(lower).name))
+
+
 def _add_associations(rng, s, fresh):
-    """One or two association classes between root classes; installed in
-    every namespace that holds both end classes."""
+    """One or two association classes between root classes (two key
+    references, one uint16, sometimes a third, non-key reference); installed
+    in every namespace that holds all end classes."""
     roots = [c for c in s.classes.values() if c.superclass is None]
     for _ in range(rng.choice([1, 1, 2])):
         a, b = rng.choice(roots), rng.choice(roots)
-        c = ClassDef(fresh('Assoc_'), None, [
+        ends = [a, b]
+        props = [
             PropDef(fresh('L_'), 'reference', key=True, ref_class=a.name),
             PropDef(fresh('R_'), 'reference', key=True, ref_class=b.name),
             PropDef(fresh('w_'), 'uint16'),
-        ], assoc=True)
+        ]
+        if rng.random() < 0.6:
+            t = rng.choice(roots)
+            ends.append(t)
+            props.append(PropDef(fresh('T_'), 'reference', ref_class=t.name))
+        c = ClassDef(fresh('Assoc_'), None, props, assoc=True)
         s.classes[c.name.lower()] = c
         for nskey, cl in s.ns_classes.items():
-            if a.name.lower() in cl and b.name.lower() in cl:
+            if all(x.name.lower() in cl for x in ends):
                 cl.append(c.name.lower())
+
+
+INTEROP_POOL = ['interop', 'root/interop', 'root/PG_Interop', 'Interop',
+                'ROOT/interop']
+NSPROV_STRING_KEYS = ['SystemCreationClassName', 'SystemName',
+                      'ObjectManagerCreationClassName', 'ObjectManagerName',
+                      'CreationClassName', 'Name']
+
+
+def _add_namespace_provider(rng, s):
+    """An Interop namespace holding only a minimal CIM_Namespace class (six
+    string keys as in the DMTF schema); Schema.build() installs the
+    CIM_Namespace provider of pywbem_mock there."""
+    ns = rng.choice(INTEROP_POOL)
+    s.namespaces.append(ns)
+    s.interop = ns
+    c = ClassDef('CIM_Namespace', None, [
+        PropDef(n, 'string', key=True) for n in NSPROV_STRING_KEYS] + [
+        PropDef('ClassInfo', 'uint16'),
+        PropDef('DescriptionOfClassInfo', 'string'),
+        PropDef('ClassType', 'uint16'),
+        PropDef('DescriptionOfClassType', 'string')])
+    s.classes['cim_namespace'] = c
+    s.ns_classes[ns.strip('/').lower()] = ['cim_namespace']
 
 
 # ------------------------------------------------------------- values -------
@@ -445,3 +507,19 @@ def cache_ply_tables():
         return True
     except Exception:  # pylint: disable=broad-except
         return False
+
+
+def mock_frame(exc):
+    """module.function of the innermost pywbem_mock frame of a traceback
+    that is not the object store (which raises KeyError/ValueError by
+    contract: the mechanism is the caller that does not expect it)."""
+    import traceback
+    found = store = None
+    for fs in traceback.extract_tb(exc.__traceback__):
+        if '/pywbem_mock/' in fs.filename:
+            name = '%s.%s' % (fs.filename.rsplit('/', 1)[-1][:-3], fs.name)
+            if name.startswith('_inmemoryrepository.'):
+                store = name
+            else:
+                found = name
+    return found or store
